@@ -6,13 +6,18 @@ use crate::maps_reader::{MappingInfo, SystemMappingInfo};
 /// a dumper that was never attached to anything (the struct has a private field, so every
 /// harness that needs a PtraceDumper gets it from here)
 pub(crate) fn bare_dumper(threads: Vec<Thread>, mappings: Vec<MappingInfo>) -> PtraceDumper {
-    PtraceDumper {
-        pid: 0,
-        threads_suspended: false,
-        threads,
-        auxv: Default::default(),
-        mappings,
-        page_size: 4096,
+    // zero-initialised and then filled field by field, so that a change which adds a field to the
+    // struct does not stop the harnesses from compiling (an all-zero bool / Option / integer is valid)
+    unsafe {
+        let mut d = core::mem::MaybeUninit::<PtraceDumper>::zeroed();
+        let p = d.as_mut_ptr();
+        core::ptr::write(core::ptr::addr_of_mut!((*p).pid), 0);
+        core::ptr::write(core::ptr::addr_of_mut!((*p).threads_suspended), false);
+        core::ptr::write(core::ptr::addr_of_mut!((*p).threads), threads);
+        core::ptr::write(core::ptr::addr_of_mut!((*p).auxv), Default::default());
+        core::ptr::write(core::ptr::addr_of_mut!((*p).mappings), mappings);
+        core::ptr::write(core::ptr::addr_of_mut!((*p).page_size), 4096);
+        d.assume_init()
     }
 }
 
@@ -96,7 +101,7 @@ fn vk_find_mapping_no_bias_2() {
 //   |w as isize| <= 4096  ||  w in the thread's own stack mapping  ||  w in some executable mapping.
 // Bound: stack copy of exactly N bytes (harness name), fully symbolic content; sp_offset symbolic in
 // 0..=N+9 (so "offset beyond the region" is inside the bound); stack_pointer symbolic; two symbolic
-// mappings at arbitrary 64-bit positions, each at most 4 MiB (bounds the bitmap loop; arbitrary positions
+// mappings (1 or 2, harness name) at arbitrary 64-bit positions, each at most 4 MiB (bounds the bitmap loop; arbitrary positions
 // cover the modulo-2048 bucket aliasing of the pre-filter), each executable or not.
 // ---------------------------------------------------------------------------
 const DEFACED: usize = 0x0defaced0defaced;
@@ -117,14 +122,16 @@ fn small_mapping() -> MappingInfo {
     m
 }
 
-fn check_sanitize<const N: usize>() {
+fn check_sanitize<const N: usize, const TWO: bool>() {
     let m0 = small_mapping();
     let m1 = small_mapping();
     let maps = [
         (m0.system_mapping_info.start_address, m0.system_mapping_info.end_address, m0.permissions.contains(MMPermissions::EXECUTE)),
-        (m1.system_mapping_info.start_address, m1.system_mapping_info.end_address, m1.permissions.contains(MMPermissions::EXECUTE)),
+        if TWO {
+            (m1.system_mapping_info.start_address, m1.system_mapping_info.end_address, m1.permissions.contains(MMPermissions::EXECUTE))
+        } else { (0, 0, false) },
     ];
-    let d = bare_dumper(Vec::new(), vec![m0, m1]);
+    let d = bare_dumper(Vec::new(), if TWO { vec![m0, m1] } else { vec![m0] });
     let input: [u8; N] = kani::any();
     let mut stack = input;
     let sp: usize = kani::any();
@@ -154,12 +161,246 @@ fn check_sanitize<const N: usize>() {
 
 #[kani::proof]
 #[kani::unwind(12)]
-fn vk_sanitize_len8() { check_sanitize::<8>(); }
+fn vk_sanitize_len8_1map() { check_sanitize::<8, false>(); }
 
 #[kani::proof]
 #[kani::unwind(15)]
-fn vk_sanitize_len12() { check_sanitize::<12>(); }
+fn vk_sanitize_len12_1map() { check_sanitize::<12, false>(); }
 
 #[kani::proof]
-#[kani::unwind(20)]
-fn vk_sanitize_len17() { check_sanitize::<17>(); }
+#[kani::unwind(19)]
+fn vk_sanitize_len16_1map() { check_sanitize::<16, false>(); }
+
+#[kani::proof]
+#[kani::unwind(12)]
+fn vk_sanitize_len8_2map() { check_sanitize::<8, true>(); }
+
+
+// ---------------------------------------------------------------------------
+// [B] suspend_threads (C04, C11): with suspend_thread stubbed to succeed or fail per thread, the retained
+// list is the order-preserving filter of the attachable threads, every thread is tried exactly once, one
+// soft error is recorded per dropped thread, and the flag is set. Bound: 3 threads.
+// ---------------------------------------------------------------------------
+static mut ATTACH_OK: [bool; 3] = [false; 3];
+static mut ATTACH_CALLS: [u8; 3] = [0; 3];
+
+fn g_suspend_thread(child: Pid) -> Result<(), DumperError> {
+    let i = (child - 100) as usize;
+    unsafe {
+        if i < 3 { ATTACH_CALLS[i] += 1; if ATTACH_OK[i] { return Ok(()); } }
+    }
+    Err(DumperError::DetachSkippedThread(child))
+}
+
+#[kani::proof]
+#[kani::stub(PtraceDumper::suspend_thread, g_suspend_thread)]
+#[kani::unwind(6)]
+fn vk_suspend_threads_3() {
+    unsafe { ATTACH_OK = kani::any(); }
+    let ok = unsafe { ATTACH_OK };
+    let threads = vec![
+        Thread { tid: 100, name: None }, Thread { tid: 101, name: None }, Thread { tid: 102, name: None },
+    ];
+    let mut d = bare_dumper(threads, Vec::new());
+    let mut errs: ErrorList<DumperError> = ErrorList::default();
+    d.suspend_threads(&mut errs);
+    unsafe { assert!(ATTACH_CALLS[0] == 1 && ATTACH_CALLS[1] == 1 && ATTACH_CALLS[2] == 1); }   // [C04] every thread tried exactly once
+    let expect: usize = ok.iter().filter(|b| **b).count();
+    assert!(d.threads.len() == expect);                                                          // [C04]
+    let mut j = 0;
+    let mut i = 0;
+    while i < 3 {
+        if ok[i] { assert!(d.threads[j].tid == 100 + i as i32); j += 1; }                      // [C04] order kept, no duplicates
+        i += 1;
+    }
+    assert!(errs.len() == 3 - expect);                                                          // [C11] one soft error per dropped thread
+    assert!(d.threads_suspended);
+    core::mem::forget(d);
+    core::mem::forget(errs);
+}
+
+// ---------------------------------------------------------------------------
+// [B] resume_threads / Drop (C03): every retained thread is detached exactly once, the flag is cleared, a
+// second call detaches nothing, and dropping the dumper resumes and sends SIGCONT. Bound: 2 threads.
+// ---------------------------------------------------------------------------
+static mut DETACH_CALLS: [u8; 3] = [0; 3];
+static mut SIGCONT_SENT: u8 = 0;
+
+fn g_resume_thread(child: Pid) -> Result<(), DumperError> {
+    let i = (child - 100) as usize;
+    unsafe { if i < 3 { DETACH_CALLS[i] += 1; } }
+    Ok(())
+}
+
+fn g_kill<T: Into<Option<nix::sys::signal::Signal>>>(_pid: nix::unistd::Pid, signal: T) -> nix::Result<()> {
+    if signal.into() == Some(nix::sys::signal::Signal::SIGCONT) { unsafe { SIGCONT_SENT += 1; } }
+    Ok(())
+}
+
+#[kani::proof]
+#[kani::stub(PtraceDumper::resume_thread, g_resume_thread)]
+#[kani::unwind(5)]
+fn vk_resume_threads_2() {
+    let threads = vec![Thread { tid: 100, name: None }, Thread { tid: 101, name: None }];
+    let mut d = bare_dumper(threads, Vec::new());
+    let suspended: bool = kani::any();
+    d.threads_suspended = suspended;
+    d.resume_threads(error_graph::strategy::DontCare);
+    assert!(!d.threads_suspended);
+    d.resume_threads(error_graph::strategy::DontCare);   // idempotent: nothing is detached twice
+    assert!(!d.threads_suspended);
+    core::mem::forget(d);
+    unsafe {
+        let want = if suspended { 1 } else { 0 };
+        assert!(DETACH_CALLS[0] == want && DETACH_CALLS[1] == want);   // [C03] detached exactly once
+    }
+}
+
+#[kani::proof]
+#[kani::stub(PtraceDumper::resume_thread, g_resume_thread)]
+#[kani::stub(nix::sys::signal::kill, g_kill)]
+#[kani::unwind(5)]
+fn vk_drop_resumes_and_continues() {
+    let threads = vec![Thread { tid: 100, name: None }];
+    let mut d = bare_dumper(threads, Vec::new());
+    let suspended: bool = kani::any();
+    d.threads_suspended = suspended;
+    drop(d);
+    unsafe {
+        assert!(DETACH_CALLS[0] == if suspended { 1 } else { 0 });   // [C03]
+        assert!(SIGCONT_SENT == 1);                                  // [C03] the process is always allowed to continue
+    }
+}
+
+// [C] ptrace_detach: a thread that no longer exists (ESRCH) is not an error; the detach request is issued once
+static mut RAW_DETACH: u8 = 0;
+fn g_detach_esrch<T: Into<Option<nix::sys::signal::Signal>>>(_pid: nix::unistd::Pid, _sig: T) -> nix::Result<()> {
+    unsafe { RAW_DETACH += 1; }
+    Err(nix::errno::Errno::ESRCH)
+}
+fn g_detach_ok<T: Into<Option<nix::sys::signal::Signal>>>(_pid: nix::unistd::Pid, _sig: T) -> nix::Result<()> {
+    unsafe { RAW_DETACH += 1; }
+    Ok(())
+}
+#[kani::proof]
+#[kani::stub(nix::sys::ptrace::detach, g_detach_esrch)]
+fn vk_ptrace_detach_esrch_is_ok() {
+    let r = ptrace_detach(kani::any());
+    assert!(r.is_ok());
+    unsafe { assert!(RAW_DETACH == 1); }
+    core::mem::forget(r);
+}
+#[kani::proof]
+#[kani::stub(nix::sys::ptrace::detach, g_detach_ok)]
+fn vk_ptrace_detach_ok() {
+    let r = PtraceDumper::resume_thread(kani::any());
+    assert!(r.is_ok());
+    unsafe { assert!(RAW_DETACH == 1); }
+    core::mem::forget(r);
+}
+
+// ---------------------------------------------------------------------------
+// [B] suspend_thread (C03): the attach/wait protocol against stubbed ptrace/waitpid.
+//   * a signal other than SIGSTOP seen while waiting is re-injected (cont with that signal), in order
+//   * on every Err return the thread is not left attached
+//   * Ok only after SIGSTOP was seen and the thread has a non-null stack pointer
+// Bound: at most 3 wait results.
+// ---------------------------------------------------------------------------
+static mut WAITS: u8 = 0;
+static mut WAIT_SIG: [u8; 3] = [0; 3];        // 0 = SIGSTOP, 1 = SIGUSR1, 2 = SIGCHLD, 3 = exited, 4 = EINTR, 5 = error
+static mut ATTACHED: bool = false;
+static mut CONT_WITH: [u8; 3] = [9; 3];
+static mut CONTS: u8 = 0;
+static mut RSP_ZERO: bool = false;
+static mut REGS_FAIL: bool = false;
+
+fn g_attach(_pid: nix::unistd::Pid) -> nix::Result<()> {
+    if kani::any() { unsafe { ATTACHED = true; } Ok(()) } else { Err(nix::errno::Errno::EPERM) }
+}
+fn g_waitpid<P: Into<Option<nix::unistd::Pid>>>(pid: P, _f: Option<wait::WaitPidFlag>) -> nix::Result<wait::WaitStatus> {
+    let p = pid.into().unwrap();
+    unsafe {
+        if WAITS >= 3 { kani::assume(false); }
+        let k = WAIT_SIG[WAITS as usize];
+        WAITS += 1;
+        match k {
+            0 => Ok(wait::WaitStatus::Stopped(p, signal::Signal::SIGSTOP)),
+            1 => Ok(wait::WaitStatus::Stopped(p, signal::Signal::SIGUSR1)),
+            2 => Ok(wait::WaitStatus::Stopped(p, signal::Signal::SIGCHLD)),
+            3 => { ATTACHED = false; Ok(wait::WaitStatus::Exited(p, 0)) }
+            4 => Err(Errno::EINTR),
+            _ => Err(Errno::ECHILD),
+        }
+    }
+}
+fn g_cont<T: Into<Option<signal::Signal>>>(_pid: nix::unistd::Pid, sig: T) -> nix::Result<()> {
+    unsafe {
+        if CONTS < 3 {
+            CONT_WITH[CONTS as usize] = match sig.into() {
+                Some(signal::Signal::SIGUSR1) => 1,
+                Some(signal::Signal::SIGCHLD) => 2,
+                Some(signal::Signal::SIGSTOP) => 0,
+                None => 8,
+                _ => 7,
+            };
+        }
+        CONTS += 1;
+    }
+    Ok(())
+}
+fn g_detach1<T: Into<Option<signal::Signal>>>(_pid: nix::unistd::Pid, _sig: T) -> nix::Result<()> {
+    unsafe { ATTACHED = false; }
+    Ok(())
+}
+fn g_getregs(_pid: Pid) -> std::result::Result<libc::user_regs_struct, ThreadInfoError> {
+    unsafe {
+        if REGS_FAIL { return Err(ThreadInfoError::IndexOutOfBounds(0, 0)); }
+        let mut r: libc::user_regs_struct = core::mem::zeroed();
+        r.rsp = if RSP_ZERO { 0 } else { 0x7000 };
+        Ok(r)
+    }
+}
+
+#[kani::proof]
+#[kani::stub(nix::sys::ptrace::attach, g_attach)]
+#[kani::stub(nix::sys::wait::waitpid, g_waitpid)]
+#[kani::stub(nix::sys::ptrace::cont, g_cont)]
+#[kani::stub(nix::sys::ptrace::detach, g_detach1)]
+#[kani::stub(crate::linux::thread_info::x86::ThreadInfoX86::getregs, g_getregs)]
+#[kani::unwind(5)]
+fn vk_suspend_thread_protocol() {
+    unsafe {
+        WAIT_SIG = kani::any();
+        kani::assume(WAIT_SIG[0] <= 5 && WAIT_SIG[1] <= 5 && WAIT_SIG[2] <= 5);
+        RSP_ZERO = kani::any();
+        REGS_FAIL = kani::any();
+    }
+    let r = PtraceDumper::suspend_thread(100);
+    unsafe {
+        // signals seen before the SIGSTOP were passed back, each once, in order
+        let mut seen = 0u8;
+        let mut i = 0;
+        while i < WAITS as usize {
+            let k = WAIT_SIG[i];
+            if k == 1 || k == 2 {
+                assert!(seen < CONTS && CONT_WITH[seen as usize] == k, "a signal intercepted at attach is re-injected");   // [C03]
+                seen += 1;
+            }
+            i += 1;
+        }
+        assert!(CONTS == seen);                                                                           // [C03] nothing injected twice
+        match r {
+            Ok(()) => {
+                assert!(WAITS >= 1 && WAIT_SIG[(WAITS - 1) as usize] == 0);                               // only after the SIGSTOP
+                assert!(!RSP_ZERO && !REGS_FAIL);                                                         // [C04] sandbox helper threads are skipped
+                assert!(ATTACHED);
+            }
+            Err(e) => {
+                core::mem::forget(e);
+                // the thread is not left attached, unless the failure was a `cont` error or a non-stop wait status
+                let last = if WAITS >= 1 { WAIT_SIG[(WAITS - 1) as usize] } else { 9 };
+                if last == 0 || last == 5 { assert!(!ATTACHED, "a thread we give up on must be detached"); }   // [C03]
+            }
+        }
+    }
+}
